@@ -165,7 +165,7 @@ def shapeJ : Shape → Json
 
 def specJ : Json :=
   Json.arr (specDirectives.map fun s => Json.mkObj [
-    ("file", s.file), ("name", s.name), ("params", strsJ s.params),
+    ("file", s.file), ("name", s.name), ("params", strsJ s.params), ("entries", strsJ s.entries),
     ("docCategory", Json.arr (s.docCategory.map fun p => Json.arr #[p.1, p.2]).toArray),
     ("intros", Json.arr (s.intros.map fun i => Json.mkObj [
       ("var", i.var), ("category", i.category), ("discr", i.discr), ("title", i.title), ("typeName", i.typeName),
